@@ -69,6 +69,9 @@ def point_snaps(out, name, idxs):
     res = {}
     pts = out.store[name]
     for i, pt in zip(idxs, pts):
+        if not (isinstance(pt, S.ObjVal) and isinstance(pt.attrs.get("orders"), dict)):
+            res.setdefault(i, []).append(("NO RESULT", repr(pt)[:40]))
+            continue
         res.setdefault(i, []).append(snap({k: (v[0], v[1]) for k, v in pt.attrs["orders"].items()}))
     return res
 
@@ -118,6 +121,8 @@ def _unit(unit):
     for c, out in enumerate(outs):
         ps = point_snaps(out, A_, idxs)
         for i, snaps in ps.items():
+            if any(isinstance(x, tuple) and x and x[0] == "NO RESULT" for x in snaps):
+                problems.append(f"history '{hname}': a request of point {POINTS[i]} comes back without a result ({[x[1] for x in snaps if isinstance(x, tuple) and x[0] == 'NO RESULT'][0]})")
             ds = [_digest(x) for x in snaps]
             if len(set(ds)) != 1:
                 problems.append(f"history '{hname}': duplicate requests of point {POINTS[i]} give different operators")
@@ -126,6 +131,8 @@ def _unit(unit):
     for out in outs:
         seen_arrays = {}
         for n_, pt in enumerate(out.store[A_]):
+            if not (isinstance(pt, S.ObjVal) and isinstance(pt.attrs.get("orders"), dict)):
+                continue
             for v in pt.attrs["orders"].values():
                 for a in v:
                     if id(a) in seen_arrays and seen_arrays[id(a)] != n_:
@@ -133,8 +140,8 @@ def _unit(unit):
                     seen_arrays[id(a)] = n_
     if hname == "alone":
         shared = set(container_ids(outs[0].store)) & set(container_ids(outs[1].store))
-        arrs0 = {id(a) for pt in outs[0].store[A_] for v in pt.attrs["orders"].values() for a in v}
-        arrs1 = {id(a) for pt in outs[1].store[A_] for v in pt.attrs["orders"].values() for a in v}
+        arrs0 = {id(a) for pt in outs[0].store[A_] if isinstance(pt, S.ObjVal) for v in pt.attrs["orders"].values() for a in v}
+        arrs1 = {id(a) for pt in outs[1].store[A_] if isinstance(pt, S.ObjVal) for v in pt.attrs["orders"].values() for a in v}
         internal = set()
         sf = runner.attrs["observables"][A_]
         for e in ev_elements(sf):
